@@ -14,7 +14,10 @@ claims = {
  'C02': ("left-to-right short-circuit, own-error propagation and exactly-once / never invocation of callbacks (EqT traces, Calls/NoCalls) for FlatMap, all Map{N}/LiftA{N}/Ap*Func/builder chains of option and try, the Recover*/Or*/OrElse* methods of Option/Try/Either/StateT, and panic capture of try.Of/Call/CallUnit through the defer/recover semantics. Loop-based FoldM/Traverse only through bounded lemmas.", "§5 C02"),
  'C04': ("frame obligations generated for every store / in-place append / map update reachable from the contracted functions of fp.Seq, seq, clone (slices, Go maps) and fp.Iterator consumers: the written memory must have been allocated by the call itself; plus Fresh(result) / Unchanged() postconditions with loop invariants. The immutable HAMT and list packages are not covered yet.", "§5 C04"),
  'C05': ("rely/guarantee proof of the lock-free promise: every compare-and-swap of tryCompleteAndGetListeners / dispatchOrAddCallback is a step of the transition relation Nil->Pending->Done (Done final, callbacks only appended), under arbitrary environment steps between the atomic operations; published callback lists are never written (frame); sequential postconditions of the retry functions (partial correctness); zero-value promise.", "§5 C05"),
+ 'C09': ("every loop-free Eq combinator of package eq (New, Given, String, Option, Ptr, PtrGiven, ContraMap, HCons/HNil, Tuple1..21) is reflexive, symmetric, transitive and holds exactly when the components are pairwise equal, under equivalence hypotheses on the component instances; every Hashable of package hash (Option, Ptr, ContraMap, HCons/HNil, Tuple1..21, Number's Eqv) is such an equivalence whose Hash respects Eqv (uint32 arithmetic exact bit-vectors). Not covered: Seq/Slice/GoMap/FpMap/Bytes/Time, hash.Number's Hash loop.", "§5 C09"),
+ 'C10': ("strict-total-order laws (trichotomy, transitivity, Compare/LessEq/Min/Max consistency), functional characterisation (lexicographic, None first, ThenComparing only breaks ties, Reversed flips) for FromCompare, New, as.Ord, Given, GivenField, ContraMap, Option, Ptr, HCons/HNil, Tuple1..4, CompareFunc/LessFunc methods; seq.Sort: result sorted w.r.t. the trusted sort.Sort contract, fresh, input untouched. Not covered: ord.Tuple5..21 (path explosion; callee summaries pending), ord.Seq/Slice, Min/Max, iterator/list Sort.", "§5 C10"),
  'C11': ("associativity and two-sided identity of every loop-free Monoid/Semigroup instance and combinator (Tuple2..21 by schema), the named instances compute what their names say, seq.Reduce / seq.Fold equal the recursive left fold (loop invariant against RecFoldL); FoldMap by a bounded lemma.", "§5 C11"),
+ 'C19': ("rely/guarantee proof for CopyOnWriteMap: the atomic cell is written only under the lock (stable while held), published maps are never modified, Updated and ComputeIf/ComputeIfAbsent each have exactly one atomic write whose effect is the sequential operation applied to the map current at that instant (a present key is never overwritten by ComputeIfAbsent, the returned value is the stored one), readers do one Load and cannot panic, all under arbitrary environment steps between atomic operations. Removed/UpdatedWith/Iterator not yet covered; 'single linearisation point implies linearizable' is the standard meta-theorem, not re-proved.", "§5 C19"),
  'C14': ("defining equation of every arity-indexed family member (curried, hlist, product, as, tuples/labelled accessors, fp.Compose/Id/ApplyFirst/ApplyLast, fn1.Merge, unit.Func, option/try LiftA/LiftM/Map/FlatMap/Flap/Method, builders) at every arity present in the source, with pairwise distinct opaque types per position.", "§5 C14"),
  'C17': ("state-monad laws (put-get, get-put, put-put, modify = get>>=put.f), state threading through FlatMap and every generated combinator of statet (EqT of (result, state) pairs at an arbitrary initial state), failure semantics (state at the point of failure, continuation not called), and every Recover* variant of fp.StateT: success untouched, handler gets the error and the post-failure state, consistently across variants. FoldM/Concat/Sequence/Traverse (loops building closure chains) not covered.", "§5 C17"),
  'C18': ("each clone combinator (Given, Option, Tuple2..21, HCons/HNil, Generic, Ptr, Slice, Seq, GoMap) returns a fresh container whose components are the component instance applied to the input's components; equal copy under CloneIsCopy hypotheses.", "§5 C18"),
